@@ -10,345 +10,12 @@
 From Coq Require Import List NArith ZArith Arith Lia Bool.
 From Coq Require Import ZifyBool ZifyN ZifyNat.
 From GL Require Import lib.GoLite model.XBinary proofs.C15_XBinary.
-From GLGEN Require Import Gen_xbinary_fn.
+From GLGEN Require Import XB_GenVocab Gen_xbinary_fn C15_GenFn_varint C15_GenFn_size.
 Import ListNotations.
 Open Scope Z_scope.
 Ltac Zify.zify_post_hook ::= Z.div_mod_to_equations.
 
-(** * Vocabulary shared by the statements *)
-
-Definition zs (l : list N) : list Z := map Z.of_N l.
-Definition ns (l : list Z) : list N := map Z.to_N l.
-Definition byte_list (l : list Z) : Prop := Forall (fun b => 0 <= b < 256) l.
-
-Definition err_of (w : wres) : error := match w with WOk => ENil | _ => Err end.
-
-(* what a Marshal function does according to the model result r: it returns
-   (n, err) and has stored the bytes [snd r] at the front of buf; nothing else
-   in the heap changes *)
-Definition wr_result (r : wres * list N) (h : heap) (buf : gslice) : outcome ((Z * error) * heap) :=
-  Ok ((Z.of_nat (w_n r), err_of (fst r)), sl_put h buf 0 (zs (snd r))).
-
-(* what a scalar Unmarshal function does according to the model result *)
-Definition rd_result (r : dres N) (h : heap) : outcome ((Z * Z * error) * heap) :=
-  match r with
-  | DOk n v => Ok ((Z.of_nat n, Z.of_N v, ENil), h)
-  | DErr => Ok ((0, 0, Err), h)
-  | DPanic => GoPanic
-  end.
-
-Lemma zs_ns l : byte_list l -> zs (ns l) = l.
-Proof.
-  unfold zs, ns. induction 1 as [|b t Hb _ IH]; [reflexivity|].
-  cbn [map]. rewrite IH. f_equal. lia.
-Qed.
-
-Lemma length_ns l : length (ns l) = length l.
-Proof. apply map_length. Qed.
-Lemma length_zs l : length (zs l) = length l.
-Proof. apply map_length. Qed.
-Lemma zlen_zs l : zlen (zs l) = Z.of_nat (length l).
-Proof. unfold zlen. rewrite length_zs. reflexivity. Qed.
-
-Lemma nth_ns l i : nth i (ns l) 0%N = Z.to_N (nth i l 0).
-Proof. unfold ns. apply (map_nth Z.to_N l 0 i). Qed.
-
-Ltac go_ret := unfold ret.
-
-(** * Fixed width *)
-
-Theorem gen_MarshalByte_refines : forall h buf v, wf_slice h buf -> 0 <= v ->
-  Gen.MarshalByte v buf h = wr_result (marshal_byte (Z.to_N v) (Z.to_nat (s_len buf))) h buf.
-Proof.
-  intros h buf v W Hv. unfold Gen.MarshalByte, marshal_byte, wr_result.
-  repeat match goal with |- context [if ?c then _ else _] => destruct c eqn:? end; try lia.
-  - go_ret. cbn [fst snd w_n err_of zs map]. rewrite sl_put_nil by exact W. reflexivity.
-  - go_step. go_ret. cbn [fst snd w_n err_of zs map length]. do 4 f_equal. lia.
-Qed.
-
-Lemma byte_list_nonneg l : byte_list l -> Forall (fun b => 0 <= b) l.
-Proof. apply Forall_impl. intros; lia. Qed.
-
-Lemma zs_ns_nonneg l : Forall (fun b => 0 <= b) l -> zs (ns l) = l.
-Proof.
-  unfold zs, ns. induction 1 as [|b t Hb _ IH]; [reflexivity|].
-  cbn [map]. rewrite IH. f_equal. lia.
-Qed.
-
-Theorem gen_UnmarshalByte_refines : forall h buf, wf_slice h buf -> byte_list (sl_get h buf) ->
-  Gen.UnmarshalByte buf h = rd_result (unmarshal_byte (ns (sl_get h buf))) h.
-Proof.
-  intros h buf W Hb. pose proof (sl_get_len h buf W) as L.
-  unfold Gen.UnmarshalByte, unmarshal_byte, rd_result.
-  destruct (sl_get h buf) as [|b t] eqn:E; unfold zlen in L; cbn [length ns map] in *;
-    repeat match goal with |- context [if ?c then _ else _] => destruct c eqn:? end; try lia.
-  - reflexivity.
-  - go_step. rewrite E. go_ret. unfold znth. cbn [Z.to_nat nth].
-    inversion Hb; subst. do 3 f_equal. f_equal. lia.
-Qed.
-
-(* encoding/binary.BigEndian as modelled in GoLite = the model's put_be/get_be *)
-Lemma be_bytes_put k v : 0 <= v -> be_bytes k v = zs (put_be k (Z.to_N v)).
-Proof.
-  intros Hv. induction k as [|k IH]; [reflexivity|].
-  cbn [be_bytes put_be zs map]. fold (zs (put_be k (Z.to_N v))). rewrite <- IH. f_equal.
-  rewrite N2Z.inj_mod, N2Z_shiftr, N2Z.inj_mul, nat_N_Z, Z2N.id by exact Hv. reflexivity.
-Qed.
-
-Lemma be_val_get l : Forall (fun b => 0 <= b) l -> be_val l = Z.of_N (get_be (ns l)).
-Proof.
-  induction 1 as [|b t Hb _ IH]; [reflexivity|].
-  cbn [be_val get_be ns map]. fold (ns t). rewrite N2Z_lor, N2Z_shiftl, <- IH.
-  rewrite N2Z.inj_mul, nat_N_Z, length_ns, Z2N.id by exact Hb. reflexivity.
-Qed.
-
-Lemma firstn_ns k l : firstn k (ns l) = ns (firstn k l).
-Proof. unfold ns. apply firstn_map. Qed.
-
-Lemma Forall_firstn_z {P : Z -> Prop} k l : Forall P l -> Forall P (firstn k l).
-Proof.
-  revert l. induction k as [|k IH]; intros l H; [constructor|].
-  destruct H as [|b t Hb Ht]; [constructor|]. cbn [firstn]. constructor; [exact Hb|apply IH; exact Ht].
-Qed.
-
-Ltac fixed_marshal W :=
-  unfold marshal_fixed, wr_result;
-  repeat match goal with |- context [if ?c then _ else _] => destruct c eqn:? end; try lia;
-  [ go_ret; cbn [fst snd w_n err_of zs map]; rewrite sl_put_nil by exact W; reflexivity
-  | go_step; go_ret; cbn [fst snd w_n err_of]; rewrite put_be_length, be_bytes_put by assumption; reflexivity ].
-
-Theorem gen_MarshalUint16_refines : forall h buf v, wf_slice h buf -> 0 <= v ->
-  Gen.MarshalUint16 v buf h = wr_result (marshal_fixed 2 (Z.to_N v) (Z.to_nat (s_len buf))) h buf.
-Proof. intros h buf v W Hv. unfold Gen.MarshalUint16. fixed_marshal W. Qed.
-
-Theorem gen_MarshalUint32_refines : forall h buf v, wf_slice h buf -> 0 <= v ->
-  Gen.MarshalUint32 v buf h = wr_result (marshal_fixed 4 (Z.to_N v) (Z.to_nat (s_len buf))) h buf.
-Proof. intros h buf v W Hv. unfold Gen.MarshalUint32. fixed_marshal W. Qed.
-
-Theorem gen_MarshalUint64_refines : forall h buf v, wf_slice h buf -> 0 <= v ->
-  Gen.MarshalUint64 v buf h = wr_result (marshal_fixed 8 (Z.to_N v) (Z.to_nat (s_len buf))) h buf.
-Proof. intros h buf v W Hv. unfold Gen.MarshalUint64. fixed_marshal W. Qed.
-
-Ltac fixed_unmarshal W Hb :=
-  let L := fresh "L" in
-  pose proof (sl_get_len _ _ W) as L; unfold zlen in L;
-  unfold unmarshal_fixed, rd_result; rewrite length_ns;
-  repeat match goal with |- context [if ?c then _ else _] => destruct c eqn:? end; try lia;
-  [ reflexivity
-  | go_step; go_ret; rewrite firstn_ns, be_val_get by (apply Forall_firstn_z, byte_list_nonneg, Hb);
-    reflexivity ].
-
-Theorem gen_UnmarshalUint16_refines : forall h buf, wf_slice h buf -> byte_list (sl_get h buf) ->
-  Gen.UnmarshalUint16 buf h = rd_result (unmarshal_fixed 2 (ns (sl_get h buf))) h.
-Proof. intros h buf W Hb. unfold Gen.UnmarshalUint16. fixed_unmarshal W Hb. Qed.
-
-Theorem gen_UnmarshalUint32_refines : forall h buf, wf_slice h buf -> byte_list (sl_get h buf) ->
-  Gen.UnmarshalUint32 buf h = rd_result (unmarshal_fixed 4 (ns (sl_get h buf))) h.
-Proof. intros h buf W Hb. unfold Gen.UnmarshalUint32. fixed_unmarshal W Hb. Qed.
-
-Theorem gen_UnmarshalUint64_refines : forall h buf, wf_slice h buf -> byte_list (sl_get h buf) ->
-  Gen.UnmarshalUint64 buf h = rd_result (unmarshal_fixed 8 (ns (sl_get h buf))) h.
-Proof. intros h buf W Hb. unfold Gen.UnmarshalUint64. fixed_unmarshal W Hb. Qed.
-
-(** * Variable-length uint: MarshalUint *)
-
-(* bit operations of the two sides as arithmetic *)
-Lemma N_land127 v : N.land v 127 = (v mod 128)%N.
-Proof. exact (land127 v). Qed.
-
-Lemma Z_to_N_shr7 v : 0 <= v -> Z.to_N (shr v 7) = N.shiftr (Z.to_N v) 7.
-Proof.
-  intros Hv. unfold shr. apply N2Z.inj. rewrite N2Z_shiftr, !Z2N.id; try lia.
-  - reflexivity.
-  - rewrite Z.shiftr_div_pow2 by lia. apply Z.div_pos; lia.
-Qed.
-
-(* 128 | byte(v & 127) on both sides *)
-Lemma cont_byte v : 0 <= v ->
-  Z.lor 128 (u8 (Z.land v 127)) = Z.of_N (N.lor 128 (N.land (Z.to_N v) 127)).
-Proof.
-  intros Hv. rewrite N2Z_lor, N2Z_land, Z2N.id by exact Hv.
-  change (Z.of_N 128) with 128. change (Z.of_N 127) with 127.
-  rewrite u8_small; [reflexivity|]. rewrite zland127. lia.
-Qed.
-
-(* what the loop of MarshalUint does from the state (v, idx), by induction on
-   the fuel of the model; the fuel of the generated loop only has to exceed the
-   room that is left *)
-Lemma gen_MarshalUint_loop : forall mf buf f v idx h,
-  wf_slice h buf -> 0 <= idx <= s_len buf -> 0 <= v ->
-  (Z.to_nat (s_len buf - idx) < f)%nat ->
-  fst (marshal_uint_go mf (Z.to_N v) (Z.to_nat (s_len buf - idx))) <> WFuel ->
-  iter f (Gen.MarshalUint_loop1 buf) (v, idx) h =
-  let r := marshal_uint_go mf (Z.to_N v) (Z.to_nat (s_len buf - idx)) in
-  Ok ((match fst r with WOk => idx + zlen (snd r) | _ => 0 end, err_of (fst r)),
-      sl_put h buf idx (zs (snd r))).
-Proof.
-  induction mf as [|mf IH]; intros buf f v idx h W Hidx Hv Hf Hne.
-  - cbn in Hne. congruence.
-  - destruct f as [|f]; [lia|]. rewrite iter_S. unfold Gen.MarshalUint_loop1 at 1.
-    cbn [marshal_uint_go] in *.
-    pose proof W as (Wa & Wo & Wl & Wc & Wm).
-    destruct (Z.to_nat (s_len buf - idx)) as [|room] eqn:Eroom; go_run;
-    lazymatch goal with
-         | |- iter _ _ _ _ = _ =>
-             (* a continuation byte was stored; the rest by induction *)
-             go_unwrap;
-             assert (Hv' : 0 <= shr v 7)
-               by (unfold shr; rewrite Z.shiftr_div_pow2 by lia; apply Z.div_pos; lia);
-             assert (Er : Z.to_nat (s_len buf - (idx + 1)) = room) by lia;
-             match goal with |- iter _ _ _ ?h' = _ =>
-               assert (W' : wf_slice h' buf)
-                 by (apply wf_slice_put; [exact W|lia|unfold zlen; cbn [length]; lia|exact W])
-             end;
-             specialize (IH buf f (shr v 7) (idx + 1) _ W' ltac:(lia) Hv' ltac:(lia));
-             rewrite Er, Z_to_N_shr7 in IH by exact Hv;
-             destruct (marshal_uint_go mf (N.shiftr (Z.to_N v) 7) room) as [st bs] eqn:Em;
-             cbn [fst snd] in *; rewrite IH by exact Hne; cbn [zs map]; fold (zs bs);
-             rewrite <- cont_byte by exact Hv;
-             match goal with |- context [sl_put (sl_put h buf idx [?x]) buf (idx + 1) ?d] =>
-               replace (idx + 1) with (idx + zlen [x]) by reflexivity;
-               rewrite (sl_put_put_adj h buf idx [x] d W) by (unfold zlen; cbn [length]; lia)
-             end;
-             cbn [app]; f_equal; f_equal; f_equal;
-             destruct st; try reflexivity; unfold zlen; cbn [length]; lia
-         | |- _ =>
-             (* the loop ended here: buffer exhausted, or the last byte stored *)
-             unfold ret; go_unwrap; cbn [fst snd err_of zs map];
-             rewrite ?(sl_put_nil h buf idx W); rewrite ?u8_small, ?Z2N.id by lia;
-             unfold zlen; cbn [length]; reflexivity
-         end.
-Qed.
-
-Lemma marshal_uint_no_fuel v room : (v < 2^64)%N -> fst (marshal_uint v room) <> WFuel.
-Proof.
-  intros Hv. rewrite (marshal_uint_buffer v room Hv).
-  destruct (room <? length (enc_uint v))%nat; cbn [fst]; congruence.
-Qed.
-
-Theorem gen_MarshalUint_refines : forall h buf v, wf_slice h buf -> 0 <= v < 2^64 ->
-  Gen.MarshalUint v buf h = wr_result (marshal_uint (Z.to_N v) (Z.to_nat (s_len buf))) h buf.
-Proof.
-  intros h buf v W Hv. pose proof W as (Wa & Wo & Wl & Wc & Wm).
-  assert (HvN : (Z.to_N v < 2^64)%N) by (change (2^64)%N with 18446744073709551616%N; lia).
-  pose proof (marshal_uint_no_fuel (Z.to_N v) (Z.to_nat (s_len buf)) HvN) as Hne.
-  unfold Gen.MarshalUint. cbv beta iota zeta.
-  match goal with |- iter ?f _ _ _ = _ =>
-    pose proof (gen_MarshalUint_loop 10 buf f v 0 h W ltac:(lia) ltac:(lia)) as L
-  end.
-  rewrite Z.sub_0_r in L. fold (marshal_uint (Z.to_N v) (Z.to_nat (s_len buf))) in L.
-  rewrite L by (try exact Hne; lia). unfold wr_result, w_n.
-  destruct (marshal_uint (Z.to_N v) (Z.to_nat (s_len buf))) as [st bs]. cbn [fst snd].
-  repeat f_equal. destruct st; try reflexivity; rewrite zlen_zs; lia.
-Qed.
-Print Assumptions gen_MarshalUint_refines.
-
-(** * Variable-length uint: UnmarshalUint *)
-
-(* uint(x) << s as modelled in GoLite = the model's shl64 *)
-Lemma shl_u64_N x s : 0 <= x -> 0 <= s ->
-  shl u64 64 x s = Z.of_N (shl64 (Z.to_N x) (Z.to_N s)).
-Proof.
-  intros Hx Hs. unfold shl, shl64.
-  destruct (Z.leb_spec 64 s); destruct (N.leb_spec 64 (Z.to_N s)); try lia.
-  unfold u64, two64. rewrite N2Z.inj_mod, N2Z_shiftl, !Z2N.id by lia. reflexivity.
-Qed.
-
-(* res | uint(b&127) << shft on both sides *)
-Lemma acc_byte res b shft : 0 <= res -> 0 <= shft -> 0 <= b ->
-  Z.lor res (shl u64 64 (u64 (Z.land b 127)) shft) =
-  Z.of_N (N.lor (Z.to_N res) (shl64 (N.land (Z.to_N b) 127) (Z.to_N shft))).
-Proof.
-  intros Hr Hs Hb.
-  assert (Hm : 0 <= Z.land b 127 < 128) by (rewrite zland127; lia).
-  rewrite u64_small by lia. rewrite shl_u64_N by lia.
-  rewrite N2Z_lor, Z2N.id by lia. do 3 f_equal.
-  apply N2Z.inj. rewrite N2Z_land, !Z2N.id by lia. reflexivity.
-Qed.
-
-Lemma skipn_cons_nth (l : list N) i b tl : skipn i l = b :: tl ->
-  nth i l 0%N = b /\ skipn (S i) l = tl /\ (i < length l)%nat.
-Proof.
-  revert l. induction i as [|i IH]; intros l H.
-  - destruct l; [discriminate|]. cbn in H. injection H as -> ->. cbn. repeat split. lia.
-  - destruct l as [|x t]; [discriminate|]. cbn [skipn] in H.
-    destruct (IH t H) as (A & B & C). cbn [nth skipn length]. repeat split; [exact A|exact B|lia].
-Qed.
-
-Lemma skipn_nil_len (l : list N) i : skipn i l = [] -> (length l <= i)%nat.
-Proof.
-  revert l. induction i as [|i IH]; intros l H.
-  - cbn in H. subst. cbn. lia.
-  - destruct l as [|x t]; [cbn; lia|]. cbn [skipn length] in *. apply IH in H. lia.
-Qed.
-
-Lemma byte_list_znth l i : byte_list l -> 0 <= i < zlen l -> 0 <= znth l i < 256.
-Proof.
-  intros Hb Hi. unfold znth, zlen, byte_list in *.
-  rewrite Forall_forall in Hb. apply Hb. apply nth_In. lia.
-Qed.
-
-(* the loop of UnmarshalUint from the state (res, idx, shft); rest is the
-   unread input.  The shift counter is a uint in Go and an unbounded N in the
-   model: they agree as long as 7*len(buf) < 2^64. *)
-Lemma gen_UnmarshalUint_loop : forall rest buf f res idx shft h,
-  wf_slice h buf -> byte_list (sl_get h buf) ->
-  0 <= idx <= s_len buf -> rest = skipn (Z.to_nat idx) (ns (sl_get h buf)) ->
-  0 <= res -> 0 <= shft -> shft + 7 * (s_len buf - idx) < 18446744073709551616 ->
-  (length rest < f)%nat ->
-  iter f (Gen.UnmarshalUint_loop1 buf) (res, idx, shft) h =
-  rd_result (unmarshal_uint_go rest (Z.to_N res) (Z.to_N shft) (Z.to_nat idx)) h.
-Proof.
-  induction rest as [|b tl IH]; intros buf f res idx shft h W Hb Hidx Hrest Hres Hshft Hsh Hf;
-    pose proof W as (Wa & Wo & Wl & Wc & Wm); pose proof (sl_get_len h buf W) as L;
-    (destruct f as [|f]; [cbn [length] in Hf; lia|]); rewrite iter_S;
-    unfold Gen.UnmarshalUint_loop1 at 1; cbn [unmarshal_uint_go]; symmetry in Hrest.
-  - (* no input left *)
-    apply skipn_nil_len in Hrest. rewrite length_ns in Hrest. unfold zlen in L.
-    go_run; unfold ret, rd_result; reflexivity.
-  - apply skipn_cons_nth in Hrest. destruct Hrest as (Hn & Htl & Hlt).
-    rewrite nth_ns in Hn. rewrite length_ns in Hlt. unfold zlen in L.
-    assert (Hz : znth (sl_get h buf) idx = Z.of_N b).
-    { unfold znth. rewrite <- Hn. rewrite Z2N.id; [reflexivity|].
-      apply (byte_list_znth (sl_get h buf) idx Hb). unfold zlen. lia. }
-    assert (Hacc : forall bz, bz = Z.of_N b ->
-              Z.lor res (shl u64 64 (u64 (Z.land bz 127)) shft) =
-              Z.of_N (N.lor (Z.to_N res) (shl64 (N.land b 127) (Z.to_N shft)))).
-    { intros bz ->. rewrite acc_byte by lia. rewrite N2Z.id. reflexivity. }
-    go_run;
-    lazymatch goal with
-    | |- iter _ _ _ _ = _ =>
-        go_unwrap; rewrite (Hacc _ Hz);
-        rewrite (IH buf f _ (idx + 1) (shft + 7) h W Hb) by (cbn [length] in Hf; first [lia | rewrite <- Htl; f_equal; lia]);
-        rewrite N2Z.id; do 2 f_equal; lia
-    | |- _ =>
-        unfold ret, rd_result; go_unwrap; rewrite (Hacc _ Hz); repeat f_equal; lia
-    end.
-Qed.
-
-Theorem gen_UnmarshalUint_refines : forall h buf,
-  wf_slice h buf -> byte_list (sl_get h buf) -> 7 * s_len buf < 18446744073709551616 ->
-  Gen.UnmarshalUint buf h = rd_result (unmarshal_uint (ns (sl_get h buf))) h.
-Proof.
-  intros h buf W Hb Hlen. pose proof W as (Wa & Wo & Wl & Wc & Wm).
-  pose proof (sl_get_len h buf W) as L. unfold zlen in L.
-  unfold Gen.UnmarshalUint, unmarshal_uint. cbv beta iota zeta.
-  match goal with |- iter ?f _ _ _ = _ =>
-    apply (gen_UnmarshalUint_loop (ns (sl_get h buf)) buf f 0 0 0 h W Hb); try lia; try reflexivity
-  end.
-  rewrite length_ns. lia.
-Qed.
-Print Assumptions gen_UnmarshalUint_refines.
-
-(** * Byte strings *)
-
-Lemma marshal_uint_cases v room : (v < 2^64)%N ->
-  (marshal_uint v room = (WOk, enc_uint v) /\ (length (enc_uint v) <= room)%nat) \/
-  (exists bs, marshal_uint v room = (WErr, bs)).
-Proof.
-  intros Hv. rewrite (marshal_uint_buffer v room Hv).
-  destruct (Nat.ltb_spec room (length (enc_uint v))); [right; eexists; reflexivity|left; split; [reflexivity|lia]].
-Qed.
+Ltac Zify.zify_post_hook ::= Z.div_mod_to_equations.
 
 Theorem gen_MarshalBytes_refines : forall h buf v,
   wf_slice h buf -> wf_slice h v -> s_arr buf <> s_arr v -> byte_list (sl_get h v) ->
@@ -388,9 +55,11 @@ Proof.
   - (* the header does not fit *)
     go_run. unfold ret, wr_result. cbn [fst snd w_n err_of]. reflexivity.
 Qed.
+
 Print Assumptions gen_MarshalBytes_refines.
 
 (* container.SliceCopy: a fresh array holding the elements of v *)
+
 Lemma gen_SliceCopy_spec h v : wf_slice h v ->
   Gen.SliceCopy v h = Ok (mkSl (length h) 0 (s_len v) (s_len v), h ++ [sl_get h v]).
 Proof.
@@ -401,33 +70,6 @@ Proof.
   match goal with |- context [firstn ?n (sl_get h v)] =>
     replace n with (length (sl_get h v)) by lia end.
   rewrite firstn_all, sl_put_new by (unfold zlen; lia). reflexivity.
-Qed.
-
-(* what UnmarshalBytes / UnmarshalString do according to the model result: the
-   returned slice is the sub-slice buf[v_off : v_off+len] of the input
-   (newBuf=false) or a fresh array holding the same bytes (newBuf=true) *)
-Definition rdb_result (r : dres bview) (h : heap) (buf : gslice)
-  : outcome ((Z * gslice * error) * heap) :=
-  match r with
-  | DOk n v =>
-      let ln := Z.of_nat (length (v_data v)) in
-      if v_alias v
-      then Ok ((Z.of_nat n,
-                mkSl (s_arr buf) (s_off buf + Z.of_nat (v_off v)) ln (s_cap buf - Z.of_nat (v_off v)),
-                ENil), h)
-      else Ok ((Z.of_nat n, mkSl (length h) 0 ln ln, ENil), h ++ [zs (v_data v)])
-  | DErr => Ok ((0, nil_slice, Err), h)
-  | DPanic => GoPanic
-  end.
-
-Lemma skipn_ns k l : skipn k (ns l) = ns (skipn k l).
-Proof. unfold ns. apply skipn_map. Qed.
-
-Lemma byte_list_zsub l lo n : byte_list l -> byte_list (zsub l lo n).
-Proof.
-  intros H. unfold zsub, byte_list in *. apply Forall_firstn_z.
-  rewrite Forall_forall in *. intros x Hx. apply H.
-  rewrite <- (firstn_skipn (Z.to_nat lo) l). apply in_or_app. right. exact Hx.
 Qed.
 
 Theorem gen_UnmarshalBytes_refines : forall h buf extra newBuf,
@@ -478,9 +120,8 @@ Proof.
     + (* the sub-slice itself *)
       unfold ret. rewrite Hdl. repeat f_equal; lia.
 Qed.
-Print Assumptions gen_UnmarshalBytes_refines.
 
-(** * Strings: the same bytes (the casts are the identity) *)
+Print Assumptions gen_UnmarshalBytes_refines.
 
 Theorem gen_MarshalString_refines : forall h buf v,
   wf_slice h buf -> wf_slice h v -> s_arr buf <> s_arr v -> byte_list (sl_get h v) ->
@@ -501,74 +142,8 @@ Proof.
   unfold bind. rewrite R. reflexivity.
 Qed.
 
-(** * Sizes *)
-
-Theorem gen_WritableUintSize_refines : forall v, 0 <= v < 2 ^ 64 ->
-  Gen.WritableUintSize v = Z.of_nat (writable_uint_size (Z.to_N v)).
-Proof.
-  intros v Hv. change (2 ^ 64) with 18446744073709551616 in Hv.
-  unfold Gen.WritableUintSize, writable_uint_size.
-  change bit7 with 128%N. change bit14 with 16384%N. change bit21 with 2097152%N.
-  change bit28 with 268435456%N. change bit35 with 34359738368%N. change bit42 with 4398046511104%N.
-  change bit49 with 562949953421312%N. change bit56 with 72057594037927936%N.
-  change bit63 with 9223372036854775808%N.
-  repeat (go_if; try lia); reflexivity.
-Qed.
-
-Theorem gen_WritebleBytesSize_refines : forall h buf, wf_slice h buf ->
-  s_len buf + 10 < 9223372036854775808 ->   (* otherwise the int addition overflows *)
-  Gen.WritebleBytesSize buf = Z.of_nat (writable_bytes_size (ns (sl_get h buf))).
-Proof.
-  intros h buf W Hov. pose proof W as (Wa & Wo & Wl & Wc & Wm).
-  pose proof (sl_get_len h buf W) as L. unfold zlen in L.
-  unfold Gen.WritebleBytesSize, writable_bytes_size. rewrite length_ns.
-  rewrite (u64_small (s_len buf)) by lia.
-  rewrite gen_WritableUintSize_refines by (change (2^64) with 18446744073709551616; lia).
-  replace (Z.to_N (s_len buf)) with (N.of_nat (length (sl_get h buf))) by lia.
-  assert (Hs : (writable_uint_size (N.of_nat (length (sl_get h buf))) <= 10)%nat).
-  { unfold writable_uint_size.
-    repeat match goal with |- context [if ?c then _ else _] => destruct c end; clear; lia. }
-  rewrite i64_small by lia. lia.
-Qed.
-
-Theorem gen_WritableStringSize_refines : forall h v, wf_slice h v ->
-  s_len v + 10 < 9223372036854775808 ->
-  Gen.WritableStringSize v = Z.of_nat (writable_string_size (ns (sl_get h v))).
-Proof. intros. unfold Gen.WritableStringSize, cast_id, writable_string_size. apply gen_WritebleBytesSize_refines; assumption. Qed.
-
-(** * The headline theorems of C15, directly over the generated functions *)
-
-Lemma ns_zs l : ns (zs l) = l.
-Proof. unfold ns, zs. rewrite map_map. rewrite <- (map_id l) at 2. apply map_ext. intros; apply N2Z.id. Qed.
-
-Lemma ns_app a b : ns (a ++ b) = ns a ++ ns b.
-Proof. apply map_app. Qed.
-
-Lemma byte_list_zs l : wf_bytes l = true -> byte_list (zs l).
-Proof.
-  unfold wf_bytes, byte_list, zs. intros H. rewrite forallb_forall in H.
-  apply Forall_forall. intros x Hx. apply in_map_iff in Hx. destruct Hx as (b & <- & Hb).
-  specialize (H b Hb). unfold wf_byte in H. lia.
-Qed.
-
-Lemma byte_list_app a b : byte_list a -> byte_list b -> byte_list (a ++ b).
-Proof. intros Ha Hb. apply Forall_app. split; assumption. Qed.
-
-Lemma byte_list_skipn k l : byte_list l -> byte_list (skipn k l).
-Proof.
-  unfold byte_list. intros H. rewrite Forall_forall in *. intros x Hx. apply H.
-  rewrite <- (firstn_skipn k l). apply in_or_app. right. exact Hx.
-Qed.
-
-(* the buffer after a Marshal call that stored [d] at its front *)
-Lemma sl_get_after_put h buf d : wf_slice h buf -> zlen d <= s_len buf ->
-  sl_get (sl_put h buf 0 d) buf = d ++ skipn (length d) (sl_get h buf).
-Proof.
-  intros W Hd. rewrite sl_get_put_same by (try exact W; lia). unfold zsplice.
-  cbn [Z.to_nat firstn app Nat.add]. reflexivity.
-Qed.
-
 (* MarshalUint then UnmarshalUint on the same buffer *)
+
 Theorem gen_uint_roundtrip : forall h buf v,
   wf_slice h buf -> byte_list (sl_get h buf) -> 7 * s_len buf < 18446744073709551616 ->
   0 <= v < 2 ^ 64 -> Gen.WritableUintSize v <= s_len buf ->
@@ -597,15 +172,11 @@ Proof.
       unfold rd_result. rewrite Z2N.id by lia. reflexivity.
     + rewrite G. apply byte_list_app; [apply byte_list_zs, enc_uint_wf|apply byte_list_skipn; exact Hb].
 Qed.
+
 Print Assumptions gen_uint_roundtrip.
 
-Lemma zsub_app_mid (a b c : list Z) : zsub (a ++ b ++ c) (zlen a) (zlen b) = b.
-Proof.
-  unfold zsub, zlen. rewrite !Nat2Z.id. rewrite skipn_app, skipn_all, Nat.sub_diag. cbn [app skipn].
-  rewrite firstn_app, firstn_all, Nat.sub_diag. cbn [firstn]. apply app_nil_r.
-Qed.
-
 (* MarshalBytes then UnmarshalBytes on the same buffer *)
+
 Theorem gen_bytes_roundtrip : forall h buf v newBuf,
   wf_slice h buf -> wf_slice h v -> s_arr buf <> s_arr v ->
   byte_list (sl_get h buf) -> byte_list (sl_get h v) ->
@@ -673,9 +244,8 @@ Proof.
       rewrite <- (length_zs hdr), <- (length_zs l). rewrite Hzl.
       apply (zsub_app_mid (zs hdr) (sl_get h v)).
 Qed.
-Print Assumptions gen_bytes_roundtrip.
 
-(** * Non-vacuity: the generated code runs (vm_compute) *)
+Print Assumptions gen_bytes_roundtrip.
 
 Example gen_ex_run :
   let h : heap := [repeat 0 8; [104; 105; 33]; [200; 3; 7]] in
